@@ -32,3 +32,136 @@ spec("C17", plan=plan_c17,
           "every value to 0x111000 (strided in quick).  Non-trivial = code point or code unit >= 0x80 (multi-byte output, "
           "surrogate handling or rejection); distinct = distinct escaped text / value.",
      assumptions=COMMON_ASSUME + ["oracle: independent UTF-8 encoder from Unicode table 3-6 and UTF-16 pairing from the Unicode definition D91"])
+
+# ---------------------------------------------------------------------------- generated-grammar corpus
+import hashlib
+import json
+
+from vf import gen
+
+
+def write_tus(workdir, tag, grammars, per_tu, cfgset, extra_includes=()):
+    """Splits grammars into TUs, writes them, returns Targets."""
+    targets = []
+    for i in range(0, len(grammars), per_tu):
+        chunk = grammars[i:i + per_tu]
+        src = gen.emit_tu(chunk, cfgset=cfgset, extra_includes=extra_includes, first_index=i)
+        h = hashlib.sha1(src.encode()).hexdigest()[:10]
+        path = os.path.join(workdir, "%s_%03d_%s.cpp" % (tag, i // per_tu, h))
+        open(path, "w").write(src)
+        targets.append(Target("%s_%03d" % (tag, i // per_tu), path, mode="o0"))
+    return targets
+
+
+def replay_corpus_plan(pid, workdir, case, cfgset=3, extra_includes=()):
+    g = gen.Grammar.from_json(case["grammar"])
+    ts = write_tus(workdir, "replay", [g], 1, cfgset, extra_includes)
+    return [Run(ts[0], args=["--prop", pid])]
+
+
+CORE_OPS = ["seq", "sor", "star", "plus", "opt", "at", "not_at"]
+
+
+def slot_shapes(ops_outer, ops_inner, contexts=("bare", "seq", "sor")):
+    """Every rule of ops_outer over slots, and every nesting outer< inner< S.. >, S.. >, each in three contexts."""
+    S = lambda k: gen.N("slot", k=k)
+
+    def inst(op, first, nxt):
+        # returns (node, next free slot); `first` is placed as the first child
+        def more(n):
+            nonlocal nxt
+            out = []
+            for _ in range(n):
+                out.append(S(nxt))
+                nxt += 1
+            return out
+        N = gen.N
+        if op in ("seq", "sor"):
+            return N(op, [first] + more(1)), nxt
+        if op in ("star", "plus", "opt", "at", "not_at"):
+            return N(op, [first]), nxt
+        raise ValueError(op)
+
+    shapes = []
+    for o in ops_outer:
+        n, nx = inst(o, S(0), 1)
+        shapes.append(n)
+        if o in ("seq", "sor", "star", "plus", "opt", "at", "not_at"):
+            # arity 2/3 variants for pack-taking rules
+            shapes.append(gen.N(o, [S(0), S(1)]))
+            if o in ("seq", "sor"):
+                shapes.append(gen.N(o, [S(0), S(1), S(2)]))
+    for o in ops_outer:
+        for i in ops_inner:
+            inner, nx = inst(i, S(0), 1)
+            outer, nx = inst(o, inner, nx)
+            shapes.append(outer)
+            if o in ("seq", "sor"):
+                # inner in last position as well
+                inner2, nx2 = inst(i, S(1), 2)
+                shapes.append(gen.N(o, [S(0), inner2]))
+    out = []
+    for sh in shapes:
+        for c in contexts:
+            if c == "bare":
+                top = gen.N("seq", [sh]) if sh.op == "slot" else sh
+            elif c == "seq":
+                top = gen.N("seq", [S(6), sh, S(7)])
+            else:
+                top = gen.N("sor", [sh, S(7)])
+            g = gen.Grammar([top])
+            L = gen.Lowered(g)
+            if gen.analyse(L, 0):
+                g.nonempty_slots = 0xff
+                if gen.analyse(L, 0xff):
+                    continue
+            out.append(g)
+    return out
+
+
+def attach_void_actions(g, rnd):
+    """void apply / apply0 on every named rule and on some atoms (C01: outcome independent of void actions)."""
+    for i in range(len(g.rules)):
+        g.actions["R%d" % i] = 1 + rnd.randrange(2)
+    for r in g.rules:
+        for n in r.walk():
+            if n.op in ("one", "string", "any", "range", "not_one", "slot") and rnd.random() < 0.4:
+                g.actions.setdefault(gen.ctype(n), 1 + rnd.randrange(2))
+            elif n.op in ("seq", "sor", "star", "plus", "opt") and rnd.random() < 0.15:
+                g.actions.setdefault(gen.ctype(n), 1 + rnd.randrange(2))
+
+
+def plan_c01(tier, seed, workdir, case):
+    if case is not None:
+        return replay_corpus_plan("C01", workdir, case)
+    import random
+    rnd = random.Random(seed * 7 + 1)
+    n = 160 if tier == "quick" else 1600
+    G = gen.Gen(seed * 1000 + 17, ops=CORE_OPS, max_depth=4 if tier == "quick" else 5)
+    gs = []
+    for _ in range(n):
+        g, rej = G.grammar()
+        attach_void_actions(g, rnd)
+        gs.append(g)
+    shapes = slot_shapes(CORE_OPS, CORE_OPS)
+    for g in shapes:
+        attach_void_actions(g, rnd)
+    runs = []
+    for t in write_tus(workdir, "c01c", gs, 10 if tier == "quick" else 25, 3):
+        runs.append(Run(t, args=["--prop", "C01"]))
+    for t in write_tus(workdir, "c01s", shapes, 12, 3):
+        runs.append(Run(t, args=["--prop", "C01", "--rc", "400" if tier == "quick" else "6000"]))
+    return runs
+
+
+spec("C01", plan=plan_c01,
+     rule="(a) seeded random grammars over seq/sor/star/plus/opt/at/not_at and any/one/not_one/range/string/eof/success/failure with 1..4 "
+          "mutually recursive named rules (well-formedness filter: no nullable repetition body, no left recursion), each run on ALL "
+          "strings up to length 5 (thorough 7) over its own 4-letter alphabet, shortest first, plus rapidcheck strings <= 20; (b) every "
+          "core operator and every 7x7 nesting over adversarial scripted leaves (slots: consume n bytes then succeed/fail/raise/throw per "
+          "class of next byte; on failure they rewind only under rewind_mode::required), bare / inside seq / inside sor, with rapidcheck-"
+          "generated scripts and inputs.  Each case runs under 5 configurations (apply mode x top-level rewind mode x void actions "
+          "attached or not x eager/lazy x control with/without wrapper and unwind).  Oracle: reference PEG interpreter (model/peg_model.hpp): "
+          "result, consumed length, and the verdict of every rule invocation.  Non-trivial: the formalism backtracked over consumed "
+          "input (a composite failed after a child consumed); distinct = (grammar, input, script).",
+     assumptions=COMMON_ASSUME + ["reference model: model/peg_model.hpp (Ford's PEG semantics), desugaring table vf/gen.py"])
